@@ -119,6 +119,113 @@ def features(t, style):
     return sorted(f)
 
 
+INT_BITS = {"int8": (8, True), "int16": (16, True), "int32": (32, True), "int64": (64, True),
+            "uint8": (8, False), "uint16": (16, False), "uint32": (32, False), "uint64": (64, False)}
+INT_PRIM = {"Int8": "int8", "Int16": "int16", "Int32": "int32", "Int64": "int64", "UInt8": "uint8", "UInt16": "uint16", "UInt32": "uint32", "UInt64": "uint64",
+            "Uint8": "uint8", "Uint16": "uint16", "Uint32": "uint32", "Uint64": "uint64"}
+
+
+def integer_literal_values(rep, tier):
+    """An integer literal denotes the value written, as an expression and as a pattern: the literal is followed from the text
+    to the typed program (the Core tree the compiler hands on, exported as JSON), where every integer constant must carry the
+    written value at the written type.  (The syntax tree keeps the digits as text, so reading a literal *as a number* happens
+    after parsing; literal fidelity is only established once the number is there.)
+    Values: 0, 1 and the boundaries 2^k - 1, 2^k of every integer width (k = 7, 8, 15, 16, 31, 32, 63, 64) that fit the type, so
+    every reading through a narrower or differently signed intermediate type shows.  Positions: suffixed let, annotated let,
+    argument, operand, tuple element, struct field, operand of a prefix minus; pattern of a match arm, pattern under a tuple and
+    under a constructor, two different literal patterns in one match."""
+    suffix = {"int8": "i8", "int16": "i16", "int32": "i32", "int64": "i64", "uint8": "u8", "uint16": "u16", "uint32": "u32", "uint64": "u64"}
+    d = workdir("c11-intlit")
+    reqs, meta = [], []
+
+    def vname(v):
+        for k in (7, 8, 15, 16, 31, 32, 63, 64):
+            if v == 2 ** k:
+                return f"2^{k}"
+            if v == 2 ** k - 1:
+                return f"2^{k}-1"
+        return str(v)
+
+    for ty, (bits, signed) in INT_BITS.items():
+        hi = 2 ** (bits - 1) - 1 if signed else 2 ** bits - 1
+        vals = sorted({0, 1} | {v for k in (7, 8, 15, 16, 31, 32, 63, 64) for v in (2 ** k - 1, 2 ** k) if v <= hi})
+        if tier == "quick":
+            vals = [v for v in vals if v in (1, hi) or v >= 2 ** 31 - 1 or bits <= 16]
+        show = f"{ty}_to_string"
+        for v in vals:
+            L = f"{v}{suffix[ty]}"
+            other = f"{(v - 1) if v > 0 else 1}{suffix[ty]}"
+            forms = {
+                "let-suffixed": (f"fn main() {{\n    let a = {L};\n    let _ = string_println({show}(a));\n    ()\n}}\n", [v]),
+                "let-annotated": (f"fn main() {{\n    let a: {ty} = {L};\n    let _ = string_println({show}(a));\n    ()\n}}\n", [v]),
+                "argument": (f"fn main() {{\n    let _ = string_println({show}({L}));\n    ()\n}}\n", [v]),
+                "operand": (f"fn f(x: {ty}) -> {ty} {{ x + {L} }}\nfn g(x: {ty}) -> bool {{ {L} < x }}\n"
+                            f"fn main() {{\n    let _ = string_println({show}(f({L})) + bool_to_string(g({L})));\n    ()\n}}\n", [v, v, v, v]),
+                "tuple-element": (f"fn main() {{\n    let t = ({L}, true);\n    let _ = string_println({show}(t.0));\n    ()\n}}\n", [v]),
+                "struct-field": (f"struct S {{ a: {ty}, b: bool }}\nfn main() {{\n    let s = S {{ a: {L}, b: true }};\n    let _ = string_println({show}(s.a));\n    ()\n}}\n", [v]),
+                "pattern": (f'fn cls(x: {ty}) -> string {{\n    match x {{\n        {L} => "hit",\n        _ => "other",\n    }}\n}}\n'
+                            f"fn main() {{\n    let _ = string_println(cls({L}));\n    ()\n}}\n", [v, v]),
+                "pattern-in-tuple": (f'fn cls(x: {ty}, b: bool) -> string {{\n    match (x, b) {{\n        ({L}, true) => "hit",\n        _ => "other",\n    }}\n}}\n'
+                                     f"fn main() {{\n    let _ = string_println(cls({L}, true));\n    ()\n}}\n", [v, v]),
+                "pattern-in-constructor": (f'enum W {{ K({ty}), N }}\nfn cls(w: W) -> string {{\n    match w {{\n        K({L}) => "hit",\n        K(_) => "other",\n        N => "none",\n    }}\n}}\n'
+                                           f"fn main() {{\n    let _ = string_println(cls(K({L})));\n    ()\n}}\n", [v, v]),
+                "two-patterns": (f'fn cls(x: {ty}) -> string {{\n    match x {{\n        {L} => "hit",\n        {other} => "next",\n        _ => "other",\n    }}\n}}\n'
+                                 f"fn main() {{\n    let _ = string_println(cls({L}) + cls({other}));\n    ()\n}}\n", [v, v, int(other[:-len(suffix[ty])]), int(other[:-len(suffix[ty])])]),
+            }
+            if signed:
+                forms["negated"] = (f"fn main() {{\n    let a = -{L};\n    let _ = string_println({show}(a));\n    ()\n}}\n", [v])
+            for fname, (text, want) in forms.items():
+                reqs.append({"id": len(reqs), "text": text, "dir": d, "core_json": True})
+                meta.append((ty, v, fname, text, sorted(want)))
+
+    def prims(x, acc):
+        if isinstance(x, dict):
+            p = x.get("EPrim")
+            if isinstance(p, dict) and isinstance(p.get("value"), dict):
+                for k, val in p["value"].items():
+                    if k in INT_PRIM and isinstance(val, dict):
+                        acc.append((INT_PRIM[k], val.get("value")))
+            for y in x.values():
+                prims(y, acc)
+        elif isinstance(x, list):
+            for y in x:
+                prims(y, acc)
+        return acc
+
+    ok = unread = 0
+    before = len(rep.violations)
+    for (ty, v, fname, text, want), r in zip(meta, gv_parallel("compile", reqs)):
+        ident = f"integer-literal-value:{ty}:{vname(v)}:{fname}"
+        if r["verdict"] in ("panic", "timeout"):
+            rep.violation(ident + ":" + r["verdict"], {"text": text, "at": r.get("at")}, replay={"text": text})
+            continue
+        if r["verdict"] != "ok":
+            # every literal here is in range and carries its suffix: it must be accepted
+            rep.violation(ident + ":rejected", {"text": text, "diags": [x["msg"] for x in r.get("diags", [])][:3]}, replay={"text": text})
+            continue
+        if not isinstance(r.get("core_json"), dict):
+            unread += 1
+            continue
+        got = prims(r["core_json"], [])
+        if not got:
+            unread += 1
+            continue
+        # the program holds no other integer literal: every integer constant of the typed program is one of the written ones,
+        # at the written type, and every written value is there (a match may mention a pattern's constant once or several times)
+        bad = [(t, g) for t, g in got if t != ty or g not in want]
+        missing = [w for w in set(want) if w not in [g for _, g in got]]
+        if bad or missing:
+            rep.violation(ident, {"text": text, "written": f"{v} at {ty}", "constants_of_the_typed_program": [f"{g} at {t}" for t, g in got][:8],
+                                  "written_values_absent": missing}, replay={"text": text})
+        else:
+            ok += 1
+    rep.coverage["integer_literal_programs"] = len(reqs)
+    rep.coverage["integer_literal_values_found_in_typed_program"] = ok
+    rep.coverage["integer_literal_programs_without_typed_export"] = unread
+    if ok < len(reqs) // 2 and len(rep.violations) == before:
+        raise ToolError("vacuity: integer literal values (typed program not readable)")
+
+
 def run(tier, rep):
     build_harness()
     rnd = rng(11)
@@ -307,6 +414,8 @@ def run(tier, rep):
                 rep.violation(f"numeric-literal:{sp}", {"text": text, "got": e}, replay={"text": text})
             else:
                 lit_ok += 1
+    # ---- integer literals as numbers: followed to the typed program
+    integer_literal_values(rep, tier)
     states += rep.coverage.get("syntax_states", 0) + tg.distinct
     trans += rep.coverage.get("syntax_states", 0) + tg.generated
     rep.coverage.update({"states": states + r.distinct, "transitions": trans + r.generated, "traces_validated_against_impl": len(reqs) + len(lreq) + len(treq) + rep.coverage.get("syntax_trees_parsed_equal", 0) + rep.coverage.get("item_files_parsed_equal", 0),
